@@ -4,8 +4,10 @@ import TTV.Lemmas.Reactor
 /-! # C15 — `Spinner.run` returns the function's own result within the timeout and restores the process
 
 All statements are about the model `TTV.Spinner` (`Model/Reactor.lean`, `Model/Spinner.lean`) and hold for
-**every** history of runs on one reactor and one `Spinner` object, every scenario (any number of delayed calls
-before / inside `f`, any delays, any timeout, stop requests at any instant, any signal handlers).
+**every** history of steps on one reactor and one `Spinner` object - calls of `run` (any number of delayed calls
+before / inside `f`, any delays, any timeout - also one the reactor rejects, so that `run` raises before its
+`try … finally` -, stop requests at any instant, any signal handlers), `clear_junk()`, and the process installing
+signal handlers between the calls.
 
 * `holds_model`            : the executable spec `Spec.C15.holds` is true of the model's trace (headline)
 * `C15_result`             : a run that is not refused returns/raises exactly the declarative `expected sc`
@@ -16,6 +18,11 @@ before / inside `f`, any delays, any timeout, stop requests at any instant, any 
 * `C15_tie_scheduled_before_run`, `C15_tie_scheduled_by_f`, `C15_tie_stop_and_fire`, `C15_stop_before_fire`
                            : the ties at one instant, for all timeouts / values
 * `C15_guards_stale`, `C15_guards_stale_only`, `C15_guards_reentry` : refusals, and that they change nothing
+* `C15_rejected`, `C15_rejected_only` : a timeout the reactor rejects: `run` raises what `reactor.callLater` raised, nothing
+                             observable has changed (the spinner keeps the handlers it saved in `_saved_signals`)
+* `C15_signals_every_call`, `C15_signals_history`, `C15_signals_model` : whenever `run` returns or raises, the
+                             SIGINT/SIGTERM/SIGCHLD handlers are what they were immediately before THAT call - for every
+                             state between two steps (whatever `_saved_signals` holds), and by induction over the history
 * `C15_clean`, `C15_preserved_signals` : after a run: not running, no delayed calls, no selectables, stop and the
                              SIGINT/SIGTERM/SIGCHLD handlers restored (table extracted from the code)
 * `C15_junk_exact`         : the recorded junk is exactly what was left over
@@ -26,6 +33,23 @@ namespace TTV.Props.C15
 open TTV.Reactor TTV.Spinner TTV.Spec.C15
 
 /-! ## frame lemmas for the scenario actions -/
+
+@[simp] theorem saveSignals_calls (w : W) : (saveSignals w).calls = w.calls := rfl
+@[simp] theorem saveSignals_now (w : W) : (saveSignals w).now = w.now := rfl
+@[simp] theorem saveSignals_events (w : W) : (saveSignals w).events = w.events := rfl
+@[simp] theorem saveSignals_u (w : W) : (saveSignals w).u = w.u := rfl
+@[simp] theorem saveSignals_sels (w : W) : (saveSignals w).sels = w.sels := rfl
+@[simp] theorem saveSignals_sigs (w : W) : (saveSignals w).sigs = w.sigs := rfl
+@[simp] theorem saveSignals_running (w : W) : (saveSignals w).running = w.running := rfl
+@[simp] theorem saveSignals_stopPatched (w : W) : (saveSignals w).stopPatched = w.stopPatched := rfl
+@[simp] theorem saveSignals_crashed (w : W) : (saveSignals w).crashed = w.crashed := rfl
+@[simp] theorem saveSignals_t0 (w : W) : (saveSignals w).t0 = w.t0 := rfl
+@[simp] theorem saveSignals_junk (w : W) : (saveSignals w).sp.junk = w.sp.junk := rfl
+@[simp] theorem saveSignals_tcall (w : W) : (saveSignals w).sp.tcall = w.sp.tcall := rfl
+@[simp] theorem saveSignals_spinning (w : W) : (saveSignals w).sp.spinning = w.sp.spinning := rfl
+@[simp] theorem saveSignals_success (w : W) : (saveSignals w).sp.success = none := rfl
+@[simp] theorem saveSignals_failure (w : W) : (saveSignals w).sp.failure = none := rfl
+@[simp] theorem saveSignals_saved (w : W) : (saveSignals w).sp.saved = w.sigs := rfl
 
 theorem fireD_of_fired {w : W} {r : Res} (h : w.u.dres ≠ none) : fireD r w = w := by
   unfold fireD
@@ -586,7 +610,7 @@ theorem runBody_facts : ∀ (i : Nat) (body : List Op) (w : W), w.u.attached = f
 
 /-- the state in which `f` starts: results forgotten, timeout call scheduled, `reactor.stop` patched, running -/
 def entry (sc : Scen) (w : W) : W :=
-  let w : W := { w with sp := { w.sp with success := none, failure := none } }
+  let w : W := saveSignals w
   let w := schedule (w.now + sc.timeout) .timeout w
   { w with stopPatched := true, running := true, crashed := false,
            sp := { w.sp with tcall := .pending, spinning := true } }
@@ -655,7 +679,8 @@ theorem entry_body (sc : Scen) (w : W) (hq : w.calls = insAll (preCalls w.now 0 
   have hb := runBody_facts sc.pre.length sc.body (entry sc w) (by simpa [entry] using hatt)
   refine ⟨?_, ?_, ?_, ?_, ?_, ?_, hb.att, ?_, ?_⟩
   · rw [hb.calls]
-    simp only [entry, schedule_calls, schedule_now, hq, allCalls, insAll_append]
+    simp only [entry, schedule_calls, schedule_now, saveSignals_calls, saveSignals_now, allCalls, insAll_append]
+    rw [hq]
     simp [insAll]
   · rw [hb.now]; rfl
   · rw [hb.sp]; rfl
@@ -1386,7 +1411,7 @@ theorem tj_entry (sc : Scen) (w : W) (hq : ∀ c ∈ w.calls, c.act.isTimeout = 
     TJ (entry sc w) := by
   left
   refine ⟨rfl, rfl, rfl, ?_, ?_⟩
-  · simp only [qT, qlbls, entry, schedule_calls]
+  · simp only [qT, qlbls, entry, schedule_calls, saveSignals_calls, saveSignals_now]
     rw [insert_count_map, count_lbl_cons, count_timeout_zero _ hq]
     rfl
   · simp [eT, elbls, entry, he]
@@ -1415,6 +1440,31 @@ theorem misc_spin {j : List Junk} {n : Nat} (m : Nat) (w : W) (h : Misc j n w) :
   · intro _ _ _ h _ _
     exact h
 
+/-- `_saved_signals` is touched by `_save_signals` / `_restore_signals` only -/
+theorem fireD_saved (r : Res) (w : W) : (fireD r w).sp.saved = w.sp.saved := by
+  unfold fireD
+  split
+  · rfl
+  · simp only []
+    split
+    · simp
+    · rfl
+
+theorem exec_saved (l : Nat) (a : Act) (w : W) : (exec l a w).sp.saved = w.sp.saved := by
+  cases a <;> first | rfl | exact fireD_saved _ _
+
+theorem saved_spin (sv : List Nat) (m : Nat) (w : W) (h : w.sp.saved = sv) : (spin exec fuelD m w).sp.saved = sv := by
+  apply spin_inv exec fuelD (fun w => w.sp.saved = sv) _ _ m w h
+  · intro w c rest h _ _
+    rcases c with ⟨t, q⟩
+    cases q with
+    | timeout => simpa [execCall] using h
+    | user l a =>
+      show (exec l a (logEvent (.user l) { w with calls := rest })).sp.saved = sv
+      rw [exec_saved]; exact h
+  · intro _ _ _ h _ _
+    exact h
+
 theorem syncFire_own (sc : Scen) : ∀ r, syncFire sc = some r → isOwnResult r = true :=
   fun _ h => isOwn_findSome h
 
@@ -1428,7 +1478,7 @@ structure RunFacts (sc : Scen) (w0 wF : W) : Prop where
   now_ge : w0.now ≤ wF.now
   junk : wF.sp.junk = w0.sp.junk
   sigs : wF.sigs.length = w0.sigs.length
-  t0 : True
+  saved : wF.sp.saved = w0.sigs
 
 theorem run_facts (sc : Scen) (w0 : W) (hidle : Idle w0) : RunFacts sc w0 (spinPhase sc (afterPre sc w0)) := by
   have hS := afterPre_eq sc w0 hidle
@@ -1487,7 +1537,13 @@ theorem run_facts (sc : Scen) (w0 : W) (hidle : Idle w0) : RunFacts sc w0 (spinP
   rw [spinPhase_eq] at hres hend ⊢
   have hti := tinv_spin ((loopStart sc (afterPre sc w0)).calls.length + 1) _ htiL
   have hm := misc_spin ((loopStart sc (afterPre sc w0)).calls.length + 1) _ hmL
-  refine ⟨hres, ?_, book_spin _ _ hbookL, tj_spin _ _ htjL, hti.now_le, now_mono_spin _ _ _ hnowL, hm.1, hm.2, trivial⟩
+  have hsvE : (entry sc (afterPre sc w0)).sp.saved = w0.sigs := by rw [hS]; rfl
+  have hsvD := runBody_inv (fun w => w.sp.saved = w0.sigs) (fun w t i a h => h)
+    (fun w i a h => by rw [exec_saved]; exact h) sc.pre.length sc.body _ hsvE
+  have hsvL : (loopStart sc (afterPre sc w0)).sp.saved = w0.sigs :=
+    finishF_inv (fun w => w.sp.saved = w0.sigs) (fun w r _ h => by simpa using h) (fun w h => h) _ _ hown hsvD
+  have hsv := saved_spin _ ((loopStart sc (afterPre sc w0)).calls.length + 1) _ hsvL
+  refine ⟨hres, ?_, book_spin _ _ hbookL, tj_spin _ _ htjL, hti.now_le, now_mono_spin _ _ _ hnowL, hm.1, hm.2, hsv⟩
   -- the loop ended by a crash: while not crashed the timeout call is still queued
   rcases hend with h | h
   · exact h
@@ -1518,7 +1574,7 @@ theorem runStep_refused (sc : Scen) (w0 : W) (hidle : Idle w0) (hj : w0.sp.junk.
     (runStep sc w0).2 = { result := .stalejunk, events := [], reentries := [], junk := w0.sp.junk,
                           pending := sc.pre.length, sels := 0, running := false, stopRestored := true,
                           sigBefore := w0.sigs, sigAfter := w0.sigs, elapsed := 0 } ∧
-    (runStep sc w0).1.sp.junk = w0.sp.junk ∧ Idle (runStep sc w0).1 := by
+    (runStep sc w0).1.sp.junk = w0.sp.junk ∧ Idle (runStep sc w0).1 ∧ (runStep sc w0).1.sigs = w0.sigs := by
   have hS := afterPre_eq sc w0 hidle
   have hjS : (!(afterPre sc w0).sp.junk.isEmpty) = true := by rw [afterPre_junk, hj]; rfl
   have hrun : runStep sc w0 =
@@ -1533,11 +1589,36 @@ theorem runStep_refused (sc : Scen) (w0 : W) (hidle : Idle w0) (hj : w0.sp.junk.
     · rfl
     · rename_i h; exact absurd hjS h
   rw [hrun, hS]
-  refine ⟨?_, rfl, ⟨rfl, hidle.sels, hidle.running, hidle.stopPatched⟩⟩
+  refine ⟨?_, rfl, ⟨rfl, hidle.sels, hidle.running, hidle.stopPatched⟩, rfl⟩
   simp [start, hidle.sels, hidle.running, hidle.stopPatched, insAll_length, preCalls_length]
 
+/-- a call with a timeout the reactor rejects: `run` raises what `reactor.callLater` raised and nothing has changed but
+the spinner's `_saved_signals`, which keeps the handlers found -/
+theorem runStep_rejected (sc : Scen) (w0 : W) (hidle : Idle w0) (hj : w0.sp.junk = []) (hb : sc.bad = true) :
+    (runStep sc w0).2 = { result := .rejected, events := [], reentries := [], junk := [],
+                          pending := sc.pre.length, sels := 0, running := false, stopRestored := true,
+                          sigBefore := w0.sigs, sigAfter := w0.sigs, elapsed := 0 } ∧
+    (runStep sc w0).1.sp.junk = [] ∧ Idle (runStep sc w0).1 ∧ (runStep sc w0).1.sigs = w0.sigs ∧
+    (runStep sc w0).1.sp.saved = w0.sigs := by
+  have hS := afterPre_eq sc w0 hidle
+  have hjS : (!(afterPre sc w0).sp.junk.isEmpty) = false := by rw [afterPre_junk, hj]; rfl
+  have hrun : runStep sc w0 =
+      ({ saveSignals (afterPre sc w0) with calls := [] },
+       { result := .rejected, events := (afterPre sc w0).events, reentries := (afterPre sc w0).u.reentries,
+         junk := (afterPre sc w0).sp.junk, pending := (afterPre sc w0).calls.length, sels := (afterPre sc w0).sels.length,
+         running := (afterPre sc w0).running, stopRestored := !(afterPre sc w0).stopPatched,
+         sigBefore := w0.sigs, sigAfter := (afterPre sc w0).sigs, elapsed := (afterPre sc w0).now - w0.now }) := by
+    unfold runStep
+    simp only []
+    split
+    · rename_i h; rw [show (!(afterPre sc w0).sp.junk.isEmpty) = true from h] at hjS; cases hjS
+    · rfl
+  rw [hrun, hS]
+  refine ⟨?_, hj, ⟨rfl, hidle.sels, hidle.running, hidle.stopPatched⟩, rfl, rfl⟩
+  simp [start, hidle.sels, hidle.running, hidle.stopPatched, insAll_length, preCalls_length, hj]
+
 /-- the observation of a run that is not refused -/
-theorem runStep_ran (sc : Scen) (w0 : W) (hidle : Idle w0) (hj : w0.sp.junk = []) :
+theorem runStep_ran (sc : Scen) (w0 : W) (hidle : Idle w0) (hj : w0.sp.junk = []) (hb : sc.bad = false) :
     (runStep sc w0).2 = { result := getResult (spinPhase sc (afterPre sc w0)).sp,
                           events := (spinPhase sc (afterPre sc w0)).events,
                           reentries := (spinPhase sc (afterPre sc w0)).u.reentries,
@@ -1545,13 +1626,17 @@ theorem runStep_ran (sc : Scen) (w0 : W) (hidle : Idle w0) (hj : w0.sp.junk = []
                           pending := 0, sels := 0, running := false, stopRestored := true,
                           sigBefore := w0.sigs, sigAfter := restoreFrom 0 w0.sigs (spinPhase sc (afterPre sc w0)).sigs,
                           elapsed := (spinPhase sc (afterPre sc w0)).now - w0.now } ∧
-    (runStep sc w0).1.sp.junk = leftovers (spinPhase sc (afterPre sc w0)) ∧ Idle (runStep sc w0).1 := by
+    (runStep sc w0).1.sp.junk = leftovers (spinPhase sc (afterPre sc w0)) ∧ Idle (runStep sc w0).1 ∧
+    (runStep sc w0).1.sigs = restoreFrom 0 w0.sigs (spinPhase sc (afterPre sc w0)).sigs ∧
+    (runStep sc w0).1.sp.saved = [] := by
   have hjS : (!(afterPre sc w0).sp.junk.isEmpty) = false := by rw [afterPre_junk, hj]; rfl
   have hsig : (afterPre sc w0).sigs = w0.sigs := by rw [afterPre, schedPre_eq]; rfl
   have hjF : (spinPhase sc (afterPre sc w0)).sp.junk = [] := by rw [(run_facts sc w0 hidle).junk, hj]
+  have hsv : (spinPhase sc (afterPre sc w0)).sp.saved = w0.sigs := (run_facts sc w0 hidle).saved
   have hrun : runStep sc w0 =
       (let w := spinPhase sc (afterPre sc w0)
-       let w : W := { w with running := false, stopPatched := false, sigs := restoreFrom 0 (afterPre sc w0).sigs w.sigs }
+       let w : W := { w with running := false, stopPatched := false, sigs := restoreFrom 0 w.sp.saved w.sigs,
+                             sp := { w.sp with saved := [] } }
        let result := getResult w.sp
        let w : W := { w with calls := [], sels := [], sp := { w.sp with junk := w.sp.junk ++ leftovers w } }
        (w, { result := result, events := w.events, reentries := w.u.reentries, junk := w.sp.junk,
@@ -1561,20 +1646,25 @@ theorem runStep_ran (sc : Scen) (w0 : W) (hidle : Idle w0) (hj : w0.sp.junk = []
     simp only []
     split
     · rename_i h; rw [show (!(afterPre sc w0).sp.junk.isEmpty) = true from h] at hjS; cases hjS
-    · rfl
+    · rw [if_neg (by rw [hb]; exact Bool.false_ne_true)]
+      rfl
   rw [hrun]
-  simp only [hsig, hjF, List.nil_append, leftovers]
-  exact ⟨by simp, by simp, ⟨rfl, rfl, rfl, rfl⟩⟩
+  refine ⟨?_, ?_, ⟨rfl, rfl, rfl, rfl⟩, ?_, rfl⟩
+  · simp only [hsv, hjF, List.nil_append, leftovers]
+    simp [getResult]
+  · simp only [hjF, List.nil_append, leftovers]
+  · simp only [hsv]
 
 /-! ## the clauses of the executable spec hold of every run of the model -/
 
 theorem tj_result {w : W} (h : TJ w) :
-    getResult w.sp ≠ .stalejunk ∧ getResult w.sp ≠ .reentry ∧
+    getResult w.sp ≠ .stalejunk ∧ getResult w.sp ≠ .reentry ∧ getResult w.sp ≠ .rejected ∧
     qT w + eT w + (if isOwnResult (getResult w.sp) = true then 1 else 0) = 1 := by
   rcases h with ⟨_, hs, hf, hq, he⟩ | ⟨_, hs, hf, hq, he⟩ | ⟨_, ho, hq, he⟩
   · simp [getResult, hs, hf, hq, he, isOwnResult]
   · simp [getResult, hs, hf, hq, he, isOwnResult]
-  · refine ⟨?_, ?_, by simp [ho, hq, he]⟩
+  · refine ⟨?_, ?_, ?_, by simp [ho, hq, he]⟩
+    · intro h; rw [h] at ho; cases ho
     · intro h; rw [h] at ho; cases ho
     · intro h; rw [h] at ho; cases ho
 
@@ -1628,49 +1718,90 @@ theorem leftovers_sels (w : W) : (leftovers w).filterMap junkSel = w.sels := by
 theorem refused_false {jb : List Junk} (h : jb = []) : refused jb = false := by simp [refused, h]
 theorem refused_true {jb : List Junk} (h : jb.isEmpty = false) : refused jb = true := by simp [refused, h]
 
-theorem junk_cases (j : List Junk) : j = [] ∨ j.isEmpty = false := by cases j <;> simp
+/-- a call is refused for stale junk, or rejected by the reactor, or it runs -/
+theorem run_cases (sc : Scen) (j : List Junk) :
+    j.isEmpty = false ∨ (j = [] ∧ sc.bad = true) ∨ (j = [] ∧ sc.bad = false) := by
+  cases j with
+  | cons _ _ => exact Or.inl rfl
+  | nil => cases hb : sc.bad with
+    | true => exact Or.inr (Or.inl ⟨rfl, rfl⟩)
+    | false => exact Or.inr (Or.inr ⟨rfl, rfl⟩)
 
 theorem clause_stale (sc : Scen) (w0 : W) (hidle : Idle w0) : cStale sc w0.sp.junk (runStep sc w0).2 = true := by
-  rcases junk_cases w0.sp.junk with hj | hj
-  · have hf := run_facts sc w0 hidle
-    rw [(runStep_ran sc w0 hidle hj).1]
-    simp [cStale, refused_false hj, (tj_result hf.tj).1]
+  rcases run_cases sc w0.sp.junk with hj | ⟨hj, hb⟩ | ⟨hj, hb⟩
   · rw [(runStep_refused sc w0 hidle hj).1]
     simp [cStale, refused_true hj]
+  · rw [(runStep_rejected sc w0 hidle hj hb).1]
+    simp [cStale, refused_false hj]
+  · have hf := run_facts sc w0 hidle
+    rw [(runStep_ran sc w0 hidle hj hb).1]
+    simp [cStale, refused_false hj, (tj_result hf.tj).1]
+
+theorem clause_rejected (sc : Scen) (w0 : W) (hidle : Idle w0) : cRejected sc w0.sp.junk (runStep sc w0).2 = true := by
+  rcases run_cases sc w0.sp.junk with hj | ⟨hj, hb⟩ | ⟨hj, hb⟩
+  · rw [(runStep_refused sc w0 hidle hj).1]
+    simp [cRejected, rejects, refused_true hj]
+  · rw [(runStep_rejected sc w0 hidle hj hb).1]
+    simp [cRejected, rejects, refused, hb, hj]
+  · have hf := run_facts sc w0 hidle
+    rw [(runStep_ran sc w0 hidle hj hb).1]
+    simp [cRejected, rejects, refused_false hj, hb, (tj_result hf.tj).2.2.1]
 
 theorem clause_reentry (sc : Scen) (w0 : W) (hidle : Idle w0) : cReentry sc w0.sp.junk (runStep sc w0).2 = true := by
-  rcases junk_cases w0.sp.junk with hj | hj
-  · have hf := run_facts sc w0 hidle
-    rw [(runStep_ran sc w0 hidle hj).1]
-    simp only [cReentry, Bool.and_eq_true, List.all_eq_true, beq_iff_eq, bne_iff_ne]
-    exact ⟨⟨fun r hr => hf.book.reent_all r hr, (tj_result hf.tj).2.1⟩, hf.book.reent⟩
+  rcases run_cases sc w0.sp.junk with hj | ⟨hj, hb⟩ | ⟨hj, hb⟩
   · rw [(runStep_refused sc w0 hidle hj).1]
     simp [cReentry]
+  · rw [(runStep_rejected sc w0 hidle hj hb).1]
+    simp [cReentry]
+  · have hf := run_facts sc w0 hidle
+    rw [(runStep_ran sc w0 hidle hj hb).1]
+    simp only [cReentry, Bool.and_eq_true, List.all_eq_true, beq_iff_eq, bne_iff_ne]
+    exact ⟨⟨fun r hr => hf.book.reent_all r hr, (tj_result hf.tj).2.1⟩, hf.book.reent⟩
 
 theorem clause_result (sc : Scen) (w0 : W) (hidle : Idle w0) : cResult sc w0.sp.junk (runStep sc w0).2 = true := by
-  rcases junk_cases w0.sp.junk with hj | hj
-  · rw [(runStep_ran sc w0 hidle hj).1]
+  rcases run_cases sc w0.sp.junk with hj | ⟨hj, hb⟩ | ⟨hj, hb⟩
+  · simp [cResult, skipped, refused_true hj]
+  · simp [cResult, skipped, hb]
+  · rw [(runStep_ran sc w0 hidle hj hb).1]
     simp [cResult, (run_facts sc w0 hidle).result]
-  · simp [cResult, refused_true hj]
 
 theorem clause_clean (sc : Scen) (w0 : W) (hidle : Idle w0) : cClean sc w0.sp.junk (runStep sc w0).2 = true := by
-  rcases junk_cases w0.sp.junk with hj | hj
-  · rw [(runStep_ran sc w0 hidle hj).1]
+  rcases run_cases sc w0.sp.junk with hj | ⟨hj, hb⟩ | ⟨hj, hb⟩
+  · simp [cClean, skipped, refused_true hj]
+  · simp [cClean, skipped, hb]
+  · rw [(runStep_ran sc w0 hidle hj hb).1]
     simp [cClean, preservedSame_restore 0 _ _ (run_facts sc w0 hidle).sigs]
-  · simp [cClean, refused_true hj]
+
+theorem preservedSame_refl : ∀ (s : Nat) (a : List Nat), preservedSame s a a = true
+  | _, [] => rfl
+  | s, x :: xs => by simp [preservedSame, preservedSame_refl (s + 1) xs]
+
+/-- whenever `run` returns or raises, the preserved handlers are what they were immediately before that call -
+whatever the spinner's `_saved_signals` held when it was called -/
+theorem clause_signals (sc : Scen) (w0 : W) (hidle : Idle w0) : cSignals sc w0.sp.junk (runStep sc w0).2 = true := by
+  rcases run_cases sc w0.sp.junk with hj | ⟨hj, hb⟩ | ⟨hj, hb⟩
+  · rw [(runStep_refused sc w0 hidle hj).1]
+    exact preservedSame_refl 0 _
+  · rw [(runStep_rejected sc w0 hidle hj hb).1]
+    exact preservedSame_refl 0 _
+  · rw [(runStep_ran sc w0 hidle hj hb).1]
+    exact preservedSame_restore 0 _ _ (run_facts sc w0 hidle).sigs
 
 theorem clause_bounded (sc : Scen) (w0 : W) (hidle : Idle w0) : cBounded sc w0.sp.junk (runStep sc w0).2 = true := by
-  rcases junk_cases w0.sp.junk with hj | hj
-  · rw [(runStep_ran sc w0 hidle hj).1]
+  rcases run_cases sc w0.sp.junk with hj | ⟨hj, hb⟩ | ⟨hj, hb⟩
+  · simp [cBounded, skipped, refused_true hj]
+  · simp [cBounded, skipped, hb]
+  · rw [(runStep_ran sc w0 hidle hj hb).1]
     have := (run_facts sc w0 hidle).now_le
     simp [cBounded]; right; omega
-  · simp [cBounded, refused_true hj]
 
 theorem clause_junk (sc : Scen) (w0 : W) (hidle : Idle w0) : cJunk sc w0.sp.junk (runStep sc w0).2 = true := by
-  rcases junk_cases w0.sp.junk with hj | hj
+  rcases run_cases sc w0.sp.junk with hj | ⟨hj, hb⟩ | ⟨hj, hb⟩
+  · simp [cJunk, skipped, refused_true hj]
+  · simp [cJunk, skipped, hb]
   · have hf := run_facts sc w0 hidle
-    rw [(runStep_ran sc w0 hidle hj).1]
-    simp only [cJunk, refused_false hj, Bool.false_or, Bool.and_eq_true, List.all_eq_true, beq_iff_eq, evLabels]
+    rw [(runStep_ran sc w0 hidle hj hb).1]
+    simp only [cJunk, skipped, refused_false hj, hb, Bool.false_or, Bool.or_false, Bool.and_eq_true, List.all_eq_true, beq_iff_eq, evLabels]
     refine ⟨⟨⟨?_, ?_⟩, ?_⟩, ?_⟩
     · intro l hl
       rw [count_leftovers_call]
@@ -1678,7 +1809,7 @@ theorem clause_junk (sc : Scen) (w0 : W) (hidle : Idle w0) : cJunk sc w0.sp.junk
       simp only [delayedLabels_lt sc l hl, if_true, elbls] at this
       exact this
     · rw [count_leftovers_call]
-      have := (tj_result hf.tj).2.2
+      have := (tj_result hf.tj).2.2.2
       simpa [qT, eT, elbls] using this
     · intro j hj'
       simp only [leftovers, List.mem_append, List.mem_map] at hj'
@@ -1690,44 +1821,72 @@ theorem clause_junk (sc : Scen) (w0 : W) (hidle : Idle w0) : cJunk sc w0.sp.junk
       · rfl
     · rw [leftovers_sels]
       exact hf.book.sels
-  · simp [cJunk, refused_true hj]
 
+/-- what a call leaves for the next step: the junk it reports, an idle reactor, the handlers it reports -/
 theorem runStep_link (sc : Scen) (w0 : W) (hidle : Idle w0) :
-    (runStep sc w0).2.junk = (runStep sc w0).1.sp.junk ∧ Idle (runStep sc w0).1 := by
-  rcases junk_cases w0.sp.junk with hj | hj
-  · obtain ⟨h1, h2, h3⟩ := runStep_ran sc w0 hidle hj
-    exact ⟨by rw [h1, h2], h3⟩
-  · obtain ⟨h1, h2, h3⟩ := runStep_refused sc w0 hidle hj
-    exact ⟨by rw [h1, h2], h3⟩
+    (runStep sc w0).2.junk = (runStep sc w0).1.sp.junk ∧ Idle (runStep sc w0).1 ∧
+    (runStep sc w0).2.sigBefore = w0.sigs ∧ (runStep sc w0).2.sigAfter = (runStep sc w0).1.sigs := by
+  rcases run_cases sc w0.sp.junk with hj | ⟨hj, hb⟩ | ⟨hj, hb⟩
+  · obtain ⟨h1, h2, h3, h4⟩ := runStep_refused sc w0 hidle hj
+    exact ⟨by rw [h1, h2], h3, by rw [h1], by rw [h1, h4]⟩
+  · obtain ⟨h1, h2, h3, h4, _⟩ := runStep_rejected sc w0 hidle hj hb
+    exact ⟨by rw [h1, h2], h3, by rw [h1], by rw [h1, h4]⟩
+  · obtain ⟨h1, h2, h3, h4, _⟩ := runStep_ran sc w0 hidle hj hb
+    exact ⟨by rw [h1, h2], h3, by rw [h1], by rw [h1, h4]⟩
+
+theorem idle_setSig {w : W} (h : Idle w) (s k : Nat) : Idle { w with sigs := w.sigs.set s k } :=
+  ⟨h.calls, h.sels, h.running, h.stopPatched⟩
 
 theorem forRuns_model (p : Scen → List Junk → RunObs → Bool)
     (hp : ∀ sc w0, Idle w0 → p sc w0.sp.junk (runStep sc w0).2 = true) :
     ∀ (steps : List Step) (w : W), Idle w → forRuns p steps (runSteps steps w) w.sp.junk = true
   | [], _, _ => by simp [forRuns, runSteps]
   | .run sc :: rest, w, h => by
-      obtain ⟨hl, hi⟩ := runStep_link sc w h
+      obtain ⟨hl, hi, _⟩ := runStep_link sc w h
       simp only [runSteps, step, forRuns, hp sc w h, Bool.true_and]
       rw [hl]
       exact forRuns_model p hp rest _ hi
   | .clearJunk :: rest, w, h => by
       simp only [runSteps, step, forRuns]
       exact forRuns_model p hp rest { w with sp := { w.sp with junk := [] } } ⟨h.calls, h.sels, h.running, h.stopPatched⟩
+  | .setSig s k :: rest, w, h => by
+      simp only [runSteps, step, forRuns]
+      exact forRuns_model p hp rest { w with sigs := w.sigs.set s k } (idle_setSig h s k)
 
 theorem shape_model : ∀ (steps : List Step) (w : W), shape steps (runSteps steps w) = true
   | [], _ => rfl
   | .run sc :: rest, w => by simp only [runSteps, step, shape]; exact shape_model rest _
   | .clearJunk :: rest, w => by simp only [runSteps, step, shape]; exact shape_model rest _
+  | .setSig s k :: rest, w => by simp only [runSteps, step, shape]; exact shape_model rest _
 
 theorem clearOk_model : ∀ (steps : List Step) (w : W), Idle w → clearOk steps (runSteps steps w) w.sp.junk = true
   | [], _, _ => by simp [clearOk, runSteps]
   | .run sc :: rest, w, h => by
-      obtain ⟨hl, hi⟩ := runStep_link sc w h
+      obtain ⟨hl, hi, _⟩ := runStep_link sc w h
       simp only [runSteps, step, clearOk]
       rw [hl]
       exact clearOk_model rest _ hi
   | .clearJunk :: rest, w, h => by
       simp only [runSteps, step, clearOk, beq_self_eq_true, Bool.true_and]
       exact clearOk_model rest { w with sp := { w.sp with junk := [] } } ⟨h.calls, h.sels, h.running, h.stopPatched⟩
+  | .setSig s k :: rest, w, h => by
+      simp only [runSteps, step, clearOk]
+      exact clearOk_model rest { w with sigs := w.sigs.set s k } (idle_setSig h s k)
+
+/-- the handlers thread through the history: each call finds what the previous step left -/
+theorem sigThread_model : ∀ (steps : List Step) (w : W), Idle w → sigThread steps (runSteps steps w) w.sigs = true
+  | [], _, _ => by simp [sigThread, runSteps]
+  | .run sc :: rest, w, h => by
+      obtain ⟨_, hi, hb, ha⟩ := runStep_link sc w h
+      simp only [runSteps, step, sigThread, hb, beq_self_eq_true, Bool.true_and]
+      rw [ha]
+      exact sigThread_model rest _ hi
+  | .clearJunk :: rest, w, h => by
+      simp only [runSteps, step, sigThread]
+      exact sigThread_model rest { w with sp := { w.sp with junk := [] } } ⟨h.calls, h.sels, h.running, h.stopPatched⟩
+  | .setSig s k :: rest, w, h => by
+      simp only [runSteps, step, sigThread, beq_self_eq_true, Bool.true_and]
+      exact sigThread_model rest { w with sigs := w.sigs.set s k } (idle_setSig h s k)
 
 theorem idle_init : Idle init := ⟨rfl, rfl, rfl, rfl⟩
 
@@ -1735,30 +1894,30 @@ theorem idle_init : Idle init := ⟨rfl, rfl, rfl, rfl⟩
 theorem holds_model (i : Input) : holds i (model i) = true := by
   have h := fun p hp => forRuns_model p hp i.steps init idle_init
   simp only [holds, clauses, List.all_cons, List.all_nil, Bool.and_true, Bool.and_eq_true, lift, model]
-  exact ⟨shape_model _ _, h _ clause_stale, h _ clause_reentry, h _ clause_result, h _ clause_clean, h _ clause_junk,
-    h _ clause_bounded, clearOk_model _ _ idle_init⟩
+  exact ⟨shape_model _ _, h _ clause_stale, h _ clause_rejected, h _ clause_reentry, h _ clause_result, h _ clause_clean,
+    h _ clause_signals, sigThread_model _ _ idle_init, h _ clause_junk, h _ clause_bounded, clearOk_model _ _ idle_init⟩
 
 /-! # The property theorems -/
 
 /-- **C15 (result).**  A run that is not refused returns / raises exactly the declarative `expected sc`: the
 function's own value or exception, `TimeoutError`, or `NoResultError` — whatever ran on this spinner before. -/
-theorem C15_result (sc : Scen) (w0 : W) (hidle : Idle w0) (hj : w0.sp.junk = []) :
+theorem C15_result (sc : Scen) (w0 : W) (hidle : Idle w0) (hj : w0.sp.junk = []) (hb : sc.bad = false) :
     (runStep sc w0).2.result = expected sc := by
-  rw [(runStep_ran sc w0 hidle hj).1]
+  rw [(runStep_ran sc w0 hidle hj hb).1]
   exact (run_facts sc w0 hidle).result
 
 /-- `f` returned a value / raised: that is the result, whatever else was scheduled. -/
-theorem C15_result_sync (sc : Scen) (w0 : W) (hidle : Idle w0) (hj : w0.sp.junk = []) :
+theorem C15_result_sync (sc : Scen) (w0 : W) (hidle : Idle w0) (hj : w0.sp.junk = []) (hb : sc.bad = false) :
     (∀ v, sc.term = .ret v → (runStep sc w0).2.result = .value v) ∧
     (∀ e, sc.term = .raise e → (runStep sc w0).2.result = .raised e) ∧
     (∀ r, sc.term = .deferred → syncFire sc = some r → (runStep sc w0).2.result = r) := by
-  rw [C15_result sc w0 hidle hj]
+  rw [C15_result sc w0 hidle hj hb]
   refine ⟨fun v h => ?_, fun e h => ?_, fun r h hs => ?_⟩ <;> simp [expected, syncRes, h, *]
 
 /-- `f` returned an unfired Deferred and asked the reactor to stop while it ran: `NoResultError`. -/
-theorem C15_result_stopped_in_f (sc : Scen) (w0 : W) (hidle : Idle w0) (hj : w0.sp.junk = [])
+theorem C15_result_stopped_in_f (sc : Scen) (w0 : W) (hidle : Idle w0) (hj : w0.sp.junk = []) (hb : sc.bad = false)
     (hs : syncRes sc = none) (hstop : syncStop sc = true) : (runStep sc w0).2.result = .noresult := by
-  rw [C15_result sc w0 hidle hj]
+  rw [C15_result sc w0 hidle hj hb]
   simp [expected, hs, hstop]
 
 /-- the reactor's call order on (time, scheduling index) -/
@@ -1844,13 +2003,13 @@ made by `f`) be decisive — it fires / fails the Deferred (`r = value v / raise
 (`r = timeout`) — and let it precede every other decisive call in the reactor's order `(time, index)`.  If no
 stop request is due strictly before it, its result is the result of the run: the value / the exception if the
 Deferred wins, `TimeoutError` if the timeout call wins; ties at one instant go to the call scheduled first. -/
-theorem C15_result_first (sc : Scen) (w0 : W) (hidle : Idle w0) (hj : w0.sp.junk = [])
+theorem C15_result_first (sc : Scen) (w0 : W) (hidle : Idle w0) (hj : w0.sp.junk = []) (hb : sc.bad = false)
     (hs : syncRes sc = none) (hstop : syncStop sc = false) (i t : Nat) (r : Res)
     (hi : (delayed sc)[i]? = some (t, .decisive r))
     (hfirst : ∀ j t' r', (delayed sc)[j]? = some (t', .decisive r') → j ≠ i → Before t i t' j)
     (hnostop : ∀ ts, (ts, Kind.stop) ∈ delayed sc → t ≤ ts) :
     (runStep sc w0).2.result = r := by
-  rw [C15_result sc w0 hidle hj]
+  rw [C15_result sc w0 hidle hj hb]
   have hw := winner_first (delayed sc) t r i hi hfirst
   have hns : noStopBefore t (delayed sc) = true := by
     simp only [noStopBefore, List.all_eq_true]
@@ -1863,13 +2022,13 @@ theorem C15_result_first (sc : Scen) (w0 : W) (hidle : Idle w0) (hj : w0.sp.junk
 
 /-- **C15 (result, interrupted).**  … but if a stop request is due strictly before that first decisive call,
 the run ends with `NoResultError`. -/
-theorem C15_result_stopped_first (sc : Scen) (w0 : W) (hidle : Idle w0) (hj : w0.sp.junk = [])
+theorem C15_result_stopped_first (sc : Scen) (w0 : W) (hidle : Idle w0) (hj : w0.sp.junk = []) (hb : sc.bad = false)
     (hs : syncRes sc = none) (i t : Nat) (r : Res)
     (hi : (delayed sc)[i]? = some (t, .decisive r))
     (hfirst : ∀ j t' r', (delayed sc)[j]? = some (t', .decisive r') → j ≠ i → Before t i t' j)
     (ts : Nat) (hstop : (ts, Kind.stop) ∈ delayed sc) (hlt : ts < t) :
     (runStep sc w0).2.result = .noresult := by
-  rw [C15_result sc w0 hidle hj]
+  rw [C15_result sc w0 hidle hj hb]
   have hw := winner_first (delayed sc) t r i hi hfirst
   have hns : noStopBefore t (delayed sc) = false := by
     simp only [noStopBefore, List.all_eq_false]
@@ -1880,28 +2039,28 @@ theorem C15_result_stopped_first (sc : Scen) (w0 : W) (hidle : Idle w0) (hj : w0
 timeout instant precedes the timeout call and wins … -/
 theorem C15_tie_scheduled_before_run (T v : Nat) (w0 : W) (hidle : Idle w0) (hj : w0.sp.junk = []) :
     (runStep { timeout := T, pre := [(T, .fire v)], body := [], term := .deferred } w0).2.result = .value v := by
-  rw [C15_result _ w0 hidle hj]
+  rw [C15_result _ w0 hidle hj rfl]
   simp [expected, syncRes, syncFire, syncStop, delayed, winner, kindOf, noStopBefore]
 
 /-- … one scheduled by `f` itself comes after the timeout call: `TimeoutError` stands, the late result is
 dropped. -/
 theorem C15_tie_scheduled_by_f (T v : Nat) (w0 : W) (hidle : Idle w0) (hj : w0.sp.junk = []) :
     (runStep { timeout := T, pre := [], body := [.later T (.fire v)], term := .deferred } w0).2.result = .timeout := by
-  rw [C15_result _ w0 hidle hj]
+  rw [C15_result _ w0 hidle hj rfl]
   simp [expected, syncRes, syncFire, syncStop, delayed, winner, kindOf, noStopBefore, laterKind, nowAct, List.filterMap_cons]
 
 /-- A stop request at the very instant of the firing does not lose the result (calls due at the instant of
 a crash still run) … -/
 theorem C15_tie_stop_and_fire (T d v : Nat) (hd : d < T) (w0 : W) (hidle : Idle w0) (hj : w0.sp.junk = []) :
     (runStep { timeout := T, pre := [(d, .stop)], body := [.later d (.fire v)], term := .deferred } w0).2.result = .value v := by
-  rw [C15_result _ w0 hidle hj]
+  rw [C15_result _ w0 hidle hj rfl]
   have : ¬ T ≤ d := by omega
   simp [expected, syncRes, syncFire, syncStop, delayed, winner, kindOf, noStopBefore, laterKind, nowAct, List.filterMap_cons, hd, this]
 
 /-- … while a stop request strictly before it does. -/
 theorem C15_stop_before_fire (T d v : Nat) (hd : d + 1 < T) (w0 : W) (hidle : Idle w0) (hj : w0.sp.junk = []) :
     (runStep { timeout := T, pre := [(d, .stop)], body := [.later (d + 1) (.fire v)], term := .deferred } w0).2.result = .noresult := by
-  rw [C15_result _ w0 hidle hj]
+  rw [C15_result _ w0 hidle hj rfl]
   have : ¬ T ≤ d + 1 := by omega
   simp [expected, syncRes, syncFire, syncStop, delayed, winner, kindOf, noStopBefore, laterKind, nowAct, List.filterMap_cons, hd, this]
 
@@ -1922,15 +2081,44 @@ theorem C15_guards_stale (sc : Scen) (w0 : W) (hidle : Idle w0) (hj : w0.sp.junk
     split
     · rfl
     · rename_i h; exact absurd hjS h
-  obtain ⟨h1, _, _⟩ := runStep_refused sc w0 hidle hj'
+  obtain ⟨h1, _, _, _⟩ := runStep_refused sc w0 hidle hj'
   rw [h1, hw, hS]
   simp [start]
 
 /-- and a run is refused **only** then -/
-theorem C15_guards_stale_only (sc : Scen) (w0 : W) (hidle : Idle w0) (hj : w0.sp.junk = []) :
+theorem C15_guards_stale_only (sc : Scen) (w0 : W) (hidle : Idle w0) (hj : w0.sp.junk = []) (hb : sc.bad = false) :
     (runStep sc w0).2.result ≠ .stalejunk ∧ (runStep sc w0).2.result ≠ .reentry := by
-  rw [(runStep_ran sc w0 hidle hj).1]
+  rw [(runStep_ran sc w0 hidle hj hb).1]
   exact ⟨(tj_result (run_facts sc w0 hidle).tj).1, (tj_result (run_facts sc w0 hidle).tj).2.1⟩
+
+/-- **C15 (a timeout the reactor rejects).**  If `reactor.callLater(timeout, …)` raises, `run` raises that exception out of
+the statements before its `try … finally`; `f` is never called (no events) and nothing observable has changed: every
+signal handler (preserved or not), `reactor.stop`, the reactor and the junk are what they were, what the caller had
+scheduled is still pending.  The only trace is in the spinner: `_saved_signals` holds the handlers it found - and the
+next `_save_signals()` overwrites it (see `C15_signals_every_call`). -/
+theorem C15_rejected (sc : Scen) (w0 : W) (hidle : Idle w0) (hj : w0.sp.junk = []) (hb : sc.bad = true) :
+    let o := (runStep sc w0).2
+    o.result = .rejected ∧ o.events = [] ∧ o.reentries = [] ∧ o.junk = [] ∧ o.pending = sc.pre.length ∧ o.sels = 0 ∧
+    o.sigAfter = o.sigBefore ∧ o.stopRestored = true ∧ o.running = false ∧ o.elapsed = 0 ∧
+    (runStep sc w0).1.sigs = w0.sigs ∧ (runStep sc w0).1.sp.saved = w0.sigs ∧ Idle (runStep sc w0).1 := by
+  obtain ⟨h1, _, h3, h4, h5⟩ := runStep_rejected sc w0 hidle hj hb
+  rw [h1]
+  exact ⟨rfl, rfl, rfl, rfl, rfl, rfl, rfl, rfl, rfl, rfl, h4, h5, h3⟩
+
+/-- and only such a call raises that -/
+theorem C15_rejected_only (sc : Scen) (w0 : W) (hidle : Idle w0) :
+    (runStep sc w0).2.result = .rejected ↔ (w0.sp.junk = [] ∧ sc.bad = true) := by
+  have := clause_rejected sc w0 hidle
+  simp only [cRejected, rejects, refused, Bool.and_eq_true, beq_iff_eq, Bool.not_eq_true', Bool.or_eq_true] at this
+  have h1 := this.1
+  constructor
+  · intro h
+    have : ((runStep sc w0).2.result == Res.rejected) = true := by simp [h]
+    rw [h1] at this
+    simp only [Bool.and_eq_true, Bool.not_eq_true', Bool.not_eq_false', List.isEmpty_iff] at this
+    exact this
+  · rintro ⟨hj, hb⟩
+    exact (runStep_rejected sc w0 hidle hj hb).1 ▸ rfl
 
 /-- **C15 (guards, re-entry).**  Every attempt to call `Spinner.run` from inside a run (from `f` or from a
 delayed call, on the same or on a fresh spinner) raised `ReentryError` — one per executed attempt — and changed
@@ -1965,32 +2153,23 @@ handler it had before the call (whatever `f` or the delayed calls installed). -/
 theorem C15_clean (sc : Scen) (w0 : W) (hidle : Idle w0) :
     Idle (runStep sc w0).1 ∧
     (∀ s, preserved s = true → (runStep sc w0).1.sigs[s]? = w0.sigs[s]?) ∧
-    (w0.sp.junk = [] → (runStep sc w0).2.pending = 0 ∧ (runStep sc w0).2.sels = 0 ∧ (runStep sc w0).2.running = false
+    (w0.sp.junk = [] → sc.bad = false → (runStep sc w0).2.pending = 0 ∧ (runStep sc w0).2.sels = 0 ∧ (runStep sc w0).2.running = false
       ∧ (runStep sc w0).2.stopRestored = true) := by
-  refine ⟨(runStep_link sc w0 hidle).2, ?_, ?_⟩
+  refine ⟨(runStep_link sc w0 hidle).2.1, ?_, ?_⟩
   · intro s hs
-    rcases junk_cases w0.sp.junk with hj | hj
-    · have hsig : (afterPre sc w0).sigs = w0.sigs := by rw [afterPre, schedPre_eq]; rfl
-      have hjS : (!(afterPre sc w0).sp.junk.isEmpty) = false := by rw [afterPre_junk, hj]; rfl
-      have hw : (runStep sc w0).1.sigs = restoreFrom 0 w0.sigs (spinPhase sc (afterPre sc w0)).sigs := by
-        rw [← hsig]
-        unfold runStep
-        simp only []
-        split
-        · rename_i h; rw [show (!(afterPre sc w0).sp.junk.isEmpty) = true from h] at hjS; cases hjS
-        · rfl
-      rw [hw]
+    rcases run_cases sc w0.sp.junk with hj | ⟨hj, hb⟩ | ⟨hj, hb⟩
+    · rw [(runStep_refused sc w0 hidle hj).2.2.2]
+    · rw [(runStep_rejected sc w0 hidle hj hb).2.2.2.1]
+    · rw [(runStep_ran sc w0 hidle hj hb).2.2.2.1]
       exact restoreFrom_get 0 _ _ (run_facts sc w0 hidle).sigs s (by simpa using hs)
-    · have hne : w0.sp.junk ≠ [] := by intro h; simp [h] at hj
-      rw [(C15_guards_stale sc w0 hidle hne).2.2.2.2.2.2.2.2.2.2.2]
-  · intro hj
-    rw [(runStep_ran sc w0 hidle hj).1]
+  · intro hj hb
+    rw [(runStep_ran sc w0 hidle hj hb).1]
     exact ⟨rfl, rfl, rfl, rfl⟩
 
 /-- **C15 (junk).**  What a run leaves behind is exactly the recorded junk: each delayed call of the scenario
 either ran or is junk — never both, never twice; the spinner's own timeout call ran, or was cancelled because a
 result was recorded, or is junk; nothing else is junk except the selectables registered by actions that ran. -/
-theorem C15_junk_exact (sc : Scen) (w0 : W) (hidle : Idle w0) (hj : w0.sp.junk = []) :
+theorem C15_junk_exact (sc : Scen) (w0 : W) (hidle : Idle w0) (hj : w0.sp.junk = []) (hb : sc.bad = false) :
     let o := (runStep sc w0).2
     (∀ l ∈ delayedLabels sc, o.junk.count (.call (.user l)) + (evLabels o).count (.user l) = 1) ∧
     o.junk.count (.call .timeout) + (evLabels o).count .timeout + (if isOwnResult o.result = true then 1 else 0) = 1 ∧
@@ -1998,7 +2177,7 @@ theorem C15_junk_exact (sc : Scen) (w0 : W) (hidle : Idle w0) (hj : w0.sp.junk =
     o.junk.filterMap junkSel = o.events.filterMap (selEv sc) ∧
     (runStep sc w0).1.sp.junk = o.junk := by
   have := clause_junk sc w0 hidle
-  simp only [cJunk, refused_false hj, Bool.false_or, Bool.and_eq_true, List.all_eq_true, beq_iff_eq] at this
+  simp only [cJunk, skipped, refused_false hj, hb, Bool.false_or, Bool.or_false, Bool.and_eq_true, List.all_eq_true, beq_iff_eq] at this
   obtain ⟨⟨⟨h1, h2⟩, h3⟩, h4⟩ := this
   refine ⟨h1, by simpa using h2, ?_, h4, (runStep_link sc w0 hidle).1.symm⟩
   intro l hl
@@ -2006,11 +2185,11 @@ theorem C15_junk_exact (sc : Scen) (w0 : W) (hidle : Idle w0) (hj : w0.sp.junk =
   simpa [junkKnown] using this
 
 /-- **C15 (bounded).**  A run never lasts beyond its timeout, and time does not run backwards. -/
-theorem C15_bounded (sc : Scen) (w0 : W) (hidle : Idle w0) (hj : w0.sp.junk = []) :
+theorem C15_bounded (sc : Scen) (w0 : W) (hidle : Idle w0) (hj : w0.sp.junk = []) (hb : sc.bad = false) :
     (runStep sc w0).2.elapsed ≤ sc.timeout ∧ w0.now ≤ (runStep sc w0).1.now := by
   have hf := run_facts sc w0 hidle
   constructor
-  · rw [(runStep_ran sc w0 hidle hj).1]
+  · rw [(runStep_ran sc w0 hidle hj hb).1]
     have := hf.now_le
     show (spinPhase sc (afterPre sc w0)).now - w0.now ≤ sc.timeout
     omega
@@ -2020,7 +2199,8 @@ theorem C15_bounded (sc : Scen) (w0 : W) (hidle : Idle w0) (hj : w0.sp.junk = []
       simp only []
       split
       · rename_i h; rw [show (!(afterPre sc w0).sp.junk.isEmpty) = true from h] at hjS; cases hjS
-      · rfl
+      · rw [if_neg (by rw [hb]; exact Bool.false_ne_true)]
+        rfl
     rw [hw]; exact hf.now_ge
 
 /-- **C15 (the loop ends).**  `reactor.run()` under `Spinner.run` always ends because the reactor was crashed
@@ -2044,14 +2224,54 @@ theorem C15_history_idle : ∀ (steps : List Step) (w : W), Idle w →
       obtain ⟨rfl, h⟩ := h
       have hidle' : Idle (step s0 w).1 := by
         cases s0 with
-        | run sc => exact (runStep_link sc w hw).2
+        | run sc => exact (runStep_link sc w hw).2.1
         | clearJunk => exact ⟨hw.calls, hw.sels, hw.running, hw.stopPatched⟩
+        | setSig s k => exact idle_setSig hw s k
       obtain ⟨w', hw', heq⟩ := C15_history_idle rest (step s0 w).1 hidle' s pre post h
       exact ⟨w', hw', by simp [runSteps, heq]⟩
 
+/-- **C15 (signal handlers, every call).**  Whenever `run` returns or raises - its own result, `TimeoutError`,
+`NoResultError`, `StaleJunkError`, what `reactor.callLater` raised - every preserved signal has the handler it had
+immediately before **that** call.  `w0` is any state between two steps: in particular the spinner's `_saved_signals`
+may hold anything (the handlers found by an earlier call that raised before its `try … finally`), and the process may
+have changed the handlers since. -/
+theorem C15_signals_every_call (sc : Scen) (w0 : W) (hidle : Idle w0) :
+    (∀ s, preserved s = true → (runStep sc w0).1.sigs[s]? = w0.sigs[s]?) ∧
+    (runStep sc w0).2.sigBefore = w0.sigs ∧ (runStep sc w0).2.sigAfter = (runStep sc w0).1.sigs ∧
+    preservedSame 0 (runStep sc w0).2.sigBefore (runStep sc w0).2.sigAfter = true :=
+  ⟨(C15_clean sc w0 hidle).2.1, (runStep_link sc w0 hidle).2.2.1, (runStep_link sc w0 hidle).2.2.2, clause_signals sc w0 hidle⟩
+
+/-- **C15 (signal handlers, by induction over the history).**  In every history of `run` calls (any timeouts, also
+rejected ones), `clear_junk()` and handler installations by the process, on one spinner: every call of `run` leaves
+the preserved handlers as it found them … -/
+theorem C15_signals_history : ∀ (steps : List Step) (w : W), Idle w →
+    ∀ o, Obs.run o ∈ runSteps steps w → preservedSame 0 o.sigBefore o.sigAfter = true
+  | [], _, _, o, h => by simp [runSteps] at h
+  | .run sc :: rest, w, hw, o, h => by
+      simp only [runSteps, step, List.mem_cons] at h
+      rcases h with h | h
+      · injection h with h; subst h; exact clause_signals sc w hw
+      · exact C15_signals_history rest _ (runStep_link sc w hw).2.1 o h
+  | .clearJunk :: rest, w, hw, o, h => by
+      simp only [runSteps, step, List.mem_cons] at h
+      rcases h with h | h
+      · cases h
+      · exact C15_signals_history rest { w with sp := { w.sp with junk := [] } } ⟨hw.calls, hw.sels, hw.running, hw.stopPatched⟩ o h
+  | .setSig s k :: rest, w, hw, o, h => by
+      simp only [runSteps, step, List.mem_cons] at h
+      rcases h with h | h
+      · cases h
+      · exact C15_signals_history rest _ (idle_setSig hw s k) o h
+
+/-- … and finds the handlers the previous step left (`sigThread`: only the process changes them between calls) -/
+theorem C15_signals_model (i : Input) :
+    (∀ o, Obs.run o ∈ model i → preservedSame 0 o.sigBefore o.sigAfter = true) ∧
+    sigThread i.steps (model i) [0, 0, 0, 0] = true :=
+  ⟨C15_signals_history i.steps init idle_init, sigThread_model i.steps init idle_init⟩
+
 /-! ## non-vacuity: concrete histories (evaluated by the kernel) -/
 
-def resultsOf (t : Trace) : List Res := t.filterMap fun | .run o => some o.result | .cleared _ => none
+def resultsOf (t : Trace) : List Res := t.filterMap fun | .run o => some o.result | _ => none
 
 /-- value, timeout at a tie, stop, reuse after a failure (fix a08ec11), refusal while junk is uncleared -/
 example : resultsOf (model ⟨false, [
@@ -2066,5 +2286,15 @@ example : resultsOf (model ⟨false, [
   = [.value 7, .timeout, .noresult, .raised 9, .value 1, .stalejunk] := by decide
 
 example : Idle init := idle_init
+
+/-- the history of seed C15-c: a call the reactor rejects (SIGINT has handler 1 then), the process installs handler 2,
+an ordinary run: it returns its value and leaves handler 2 - not the stale handler 1 saved by the rejected call -/
+example : (model ⟨false, [
+    .setSig 0 1,
+    .run { timeout := 0, bad := true, pre := [], body := [], term := .ret 0 },
+    .setSig 0 2,
+    .run { timeout := 3, pre := [], body := [.later 1 (.fire 7)], term := .deferred }]⟩).filterMap
+      (fun | .run o => some (o.result, o.sigBefore, o.sigAfter) | _ => none)
+    = [(.rejected, [1, 0, 0, 0], [1, 0, 0, 0]), (.value 7, [2, 0, 0, 0], [2, 0, 0, 0])] := by decide
 
 end TTV.Props.C15
